@@ -240,6 +240,9 @@ MeanSeq(xs) == LET n == Len(xs) IN
 FdTol(dt, v) == 10 + 2 * (Abs(dt) \div Q + 1) + 2 * (Abs(v) \div Q + 1)
 
 (* ======================================================================= *)
-(* Known-finding matchers (instance level). None recorded for C12/C13.     *)
+(* Known-finding matchers (instance level)                                 *)
 (* ======================================================================= *)
+\* findings/c12_guess_missing_frame.py: the user-supplied guess has entries for some steps only and the
+\* construction of the correspondence raised KeyError (TimeSeries.__post_init__ indexes initial_guess[key])
+KF_GuessMissingFrame(en, ns) == en.guess_missing /\ ns.raised = "KeyError"
 =============================================================================
